@@ -15,7 +15,7 @@ from common import Ctx, Failure, main_wrapper
 PID = "C11"
 RULE = ("Hypothesis-generated histories of 2..30 steps in ONE process per build (thread-safe and non-thread-safe, ASan; "
         "plain builds, i.e. the real allocator with immediate address reuse, for the same comparison and for heap growth): write_config(structured config over every option) / empty / delete / garbage / "
-        "directory-in-place / syntax-error-plus-options, and call(request). Oracle: differential -- what call k adds to "
+        "directory-in-place / syntax-error-plus-options, and call(request), one call in eight made while the program is out of descriptors (EMFILE on every open; not compared itself). Oracle: differential -- what call k adds to "
         "every sink equals what the same (config, request) adds as the FIRST call of a fresh process (pid normalised); "
         "ASan silent; heap after a repeated (config, request) pair equal. non-trivial = a later configuration omits or "
         "invalidates an option an earlier one set; distinct by (option, later state, build)")
@@ -48,8 +48,11 @@ def strategy():
     def callstep(draw):
         argv = draw(st.one_of(st.none(), st.lists(gen.text_bytes(0, 10), max_size=3),
                               st.sampled_from([300, 700, 3000]).map(lambda n: [b"a" * n])))
-        return {"op": "call", "kind": draw(st.sampled_from(["v", "e"])),
-                "path": draw(st.sampled_from([b"/bin/true", b"/x", b"/usr/bin/" + b"n" * 40])), "argv": argv}
+        c = {"op": "call", "kind": draw(st.sampled_from(["v", "e"])),
+             "path": draw(st.sampled_from([b"/bin/true", b"/x", b"/usr/bin/" + b"n" * 40])), "argv": argv}
+        if draw(st.sampled_from([False] * 7 + [True])):
+            c["nofile"] = True
+        return c
 
     NONDEFAULT = {
         b"output": [b"file:@OUT@/log", b"stdout", b"socket:@OUT@/sock", b"devnull", b"stderr", b"syslog", b"syslog", b"file:/dev/full"],
@@ -151,8 +154,10 @@ def sink_ops(out):
 
 
 def call_ops(out, s, snap=False):
-    return [drv.op("x", *[out + f for f in FILES]),
-            drv.op_exec(s["kind"], s["path"], s["argv"], [b"E=1"], ret=-1, err=2, snap=snap), drv.op("L"), drv.op("G")]
+    # "nofile": the calling program has run out of descriptors for the time of this one call (soft limit 0, lifted right after)
+    lim = ([drv.op("R", 0)], [drv.op("R", -1)]) if s.get("nofile") else ([], [])
+    return [drv.op("x", *[out + f for f in FILES])] + lim[0] + \
+           [drv.op_exec(s["kind"], s["path"], s["argv"], [b"E=1"], ret=-1, err=2, snap=snap)] + lim[1] + [drv.op("L"), drv.op("G")]
 
 
 def norm(name, content):
@@ -219,6 +224,8 @@ def evaluate(env, c):
             raise Failure("[%s] %d of %d calls completed" % (variant, len(ds), len(calls)), None, key="incomplete")
         fresh_cache = {}
         for k, ((cfg, s), got) in enumerate(zip(calls, ds)):
+            if s.get("nofile"):
+                continue        # what a call without descriptors manages to log is C03's business; here it is a step of the history
             key = (cfg["ini"], cfg.get("dir"), s["kind"], s["path"], repr(s["argv"]))
             if key not in fresh_cache:
                 fr = run_fresh(d, cfg, s)
@@ -281,6 +288,8 @@ def classify(c):
         cls.add("cfg:" + ("broken" if state.endswith("syntaxerror") else state if (state in ("absent", "dir", "empty", "garbage", "syslogseq") or state.startswith("targeted")) else "opts"))
     ncalls = sum(1 for s in c["steps"] if s["op"] == "call")
     cls.add("calls:%d" % min(ncalls, 10))
+    if any(s.get("nofile") for s in c["steps"] if s["op"] == "call"):
+        cls.add("call-without-descriptors")
     key = tuple(sorted(nontriv))[:6] if nontriv else None
     return key, sorted(cls) + (["carryover-candidate"] if nontriv else [])
 
@@ -321,6 +330,11 @@ FIXED = [
     # a sink that refuses every record (ENOSPC from /dev/full, a directory, a missing directory), then a working file output
     {"steps": [_cf([(b"output", b"file:/dev/full")]), _SHORT, _LONG, _cf([(b"output", b"file:@OUT@/log")]), _SHORT, _SHORT,
                _cf([(b"output", b"file:/dev/full")]), _SHORT, _cf([(b"output", b"file:@OUT@/log-x-0")]), _LONG]},
+    # one call made while the program is out of descriptors (configuration file cannot be opened: EMFILE), then ordinary calls
+    {"steps": [_cf([(b"output", b"file:@OUT@/log"), (b"message_format", b"N %{filename} %{cmdline}")]), _SHORT, dict(_SHORT, nofile=True), _SHORT, _LONG,
+               _cf([(b"output", b"stdout"), (b"filter_chain", b"exclude_uid:4242")]), dict(_LONG, nofile=True), _SHORT,
+               _cf([(b"output", b"file:@OUT@/log-x-0")]), _SHORT]},
+    {"steps": [_cf([(b"output", b"file:@OUT@/log")]), dict(_SHORT, nofile=True), _SHORT, _SHORT]},
     {"steps": [_cf([(b"output", b"file:@OUT@")]), _SHORT, _cf([(b"output", b"file:@OUT@/log")]), _SHORT,
                _cf([(b"output", b"file:@OUT@/nodir/log")]), _SHORT, _cf([(b"output", b"file:@OUT@/log")]), _SHORT]},
     {"steps": [_cf([(b"output", b"syslog"), (b"syslog_facility", b"LOCAL3"), (b"syslog_level", b"ERR")]), _SHORT,
